@@ -21,7 +21,7 @@
 From Coq Require Import List ZArith QArith Qround Qabs Bool Arith Lia.
 From LMBase Require Import Res ListX IEEE.
 From LMDist Require Import GenDist DistSkel DistModel DistInst DistProofs DistConv DistTail DistBuild DistThms
-  DistDyadic DistCheckProofs DistStretch DistIEEE DistTotal DistNaive DistWords DistRound DistGridModel DistGrid DistBest DistMonoIEEE.
+  DistDyadic DistCheckProofs DistStretch DistIEEE DistTotal DistNaive DistWords DistRound DistGridModel DistGrid DistBest DistMonoIEEE DistMaxGen.
 Import ListNotations.
 Local Open Scope Q_scope.
 
@@ -257,6 +257,14 @@ Theorem C11_grid_checker_eq : forall m bg sf pv br rt,
   check_C11_grid_fails m bg sf pv br rt = check_C11_fails m bg sf pv br rt.
 Proof. exact check_C11_grid_eq. Qed.
 
+(* what the driver actually runs: the same bracket check with the power of two that all integer
+   weights share divided out (the weights are frequencies times 2^j with j >= 54 even for the uniform
+   background: 54*M-bit integers otherwise), per word or per distinct score: again check_C11_fails
+   as a function, so check_C11_sound applies to its verdicts *)
+Theorem C11_red_checker_eq : forall grid m bg sf pv br rt,
+  check_C11_red_fails grid m bg sf pv br rt = check_C11_fails m bg sf pv br rt.
+Proof. exact check_C11_red_eq. Qed.
+
 Theorem check_C11_grid_sound : forall m bg sf pv br rt,
   check_C11_grid m bg sf pv br rt = true -> Holds_C11 m bg sf pv br rt.
 Proof. exact check_C11_grid_sound_lemma. Qed.
@@ -286,6 +294,27 @@ Theorem C11_roundtrip_binary64 : forall (d : dist F64.t) p s q,
   d_score F64Ops d p = Ok s -> d_pvalue F64Ops d s = Ok q ->
   le_n F64Ops q p = true.
 Proof. exact roundtrip_F64. Qed.
+
+(* max_score / min_pvalue for EVERY numeric carrier, the bit-exact binary64 model included (no
+   arithmetic fact is used, only the loop's own comparisons `> 0.0`): the survival loop leaves in
+   max_score the largest table index >= 1 whose entry is > 0, or 0 when there is none ... *)
+Theorem C11_max_score_structural : forall (T : Type) (N : NumOps T) pdf sf mn mx,
+  survival N pdf = Ok (sf, mn, mx) ->
+  (mx = 0%Z /\ forall k, (1 <= k < length sf)%nat -> gt0 N (nth k sf (n_zero N)) = false) \/
+  ((1 <= Z.to_nat mx < length sf)%nat /\ (0 < mx)%Z /\ gt0 N (nth (Z.to_nat mx) sf (n_zero N)) = true /\
+   forall k, (Z.to_nat mx < k < length sf)%nat -> gt0 N (nth k sf (n_zero N)) = false).
+Proof. exact @survival_max_gen. Qed.
+
+(* ... so min_pvalue() of a built distribution never panics (any carrier, any input for which the
+   construction itself succeeds), equals sf[max_score], is > 0 whenever max_score <> 0, and no table
+   entry above max_score is > 0: in binary64 itself the far upper tail ends exactly at max_score *)
+Theorem C11_min_pvalue_structural : forall (T : Type) (N : NumOps T) m bg d,
+  build N m bg = Ok d ->
+  exists q, d_min_pvalue d = Ok q /\ q = nth (Z.to_nat (d_max d)) (d_sf d) (n_zero N) /\ (0 <= d_max d)%Z /\
+    (d_max d <> 0%Z -> gt0 N q = true) /\
+    (forall k, (Z.to_nat (d_max d) < k < length (d_sf d))%nat -> (1 <= k)%nat ->
+       gt0 N (nth k (d_sf d) (n_zero N)) = false).
+Proof. exact @min_pvalue_gen. Qed.
 
 (* Monotonicity in binary64 itself: scale(s) = f64::round((s - w*offset) * scale) as i32 is
    non-decreasing in s for ALL doubles s1 <= s2 (infinities included, overflow of the difference or
@@ -557,3 +586,9 @@ Example ex_mono_pred :
                                        [1166016512; 1166016513; 1166016513; 1166016514; ninf32]]%Z) (map f32_val bg_uniform32) with
   | Ok d => f64_mono_pred d | _ => false end = true.
 Proof. split; vm_compute; reflexivity. Qed.
+
+(* the reduction on the uniform background: the integer weights 2^52 (j = 54) become 1 (j - t = 2) *)
+Example ex_red :
+  let bg := map f32_val bg_uniform32 in
+  c11_j bg = 54%Z /\ c11_red (c11_j bg) (c11_zb bg) = ([1; 1; 1; 1; 0]%Z, 52%Z).
+Proof. cbv zeta. split; vm_compute; reflexivity. Qed.
